@@ -1,3 +1,4 @@
+import RactorModel.Lemmas.GenElection
 import RactorModel.Lemmas.TwoNode
 import RactorModel.Lemmas.Agreement
 import RactorModel.Lemmas.HandshakeRefine
@@ -651,6 +652,31 @@ example : electA .lt exampleWorld = [1] ∧ electB .lt exampleWorld = [4] := by 
 example : electA .gt [⟨false, 41, 12, 21⟩, ⟨false, 41, 11, 22⟩] = [11]
     ∧ electB .gt [⟨false, 41, 12, 21⟩, ⟨false, 41, 11, 22⟩] = [21, 22] := by decide
 
+
+/-! ### Translator tie (rs2lean): kernel-checked equivalence between the definitions that
+`extract/rs2lean.py` regenerates from the CURRENT Rust source on every run
+(`RactorModel/Generated/*.lean`) and the hand-written model functions the theorems above are
+about. A semantic change of the Rust function changes the generated text and these stop checking. -/
+
+section XlateTie
+open Generated.Election GenElection
+
+theorem generated_elect_sessions_eq_model (this peer : String) (cs : List SessionElectionCandidate) :
+    elect_sessions this peer cs = Election.elect (compare peer this) (cs.map absCand) := by
+  unfold elect_sessions Election.elect Election.pipeline
+  simp only [List.length_map, decide_eq_true_eq]
+  split
+  · simp [absCand, Function.comp_def]
+  · rw [dir_abs, nonce_abs, tie_abs]
+    simp only [List.map_map, Function.comp_def, absCand]
+    -- per value of the comparison both sides reduce (robust to a reordering of the `Ordering` arms)
+    cases compare peer this <;> rfl
+
+theorem generated_elect_sessions_covers_model (this peer : String) (cs : List Election.Cand) :
+    elect_sessions this peer (cs.map concCand) = Election.elect (compare peer this) cs := by
+  rw [generated_elect_sessions_eq_model, map_abs_conc]
+end XlateTie
+
 end C18
 
 #print axioms C18.elect_order_independent
@@ -688,3 +714,6 @@ end C18
 #print axioms C18.commit_leaves_elected_set
 #print axioms C18.reachable_states_are_well_formed
 #print axioms C18.elected_session_continues
+-- rs2lean tie
+#print axioms C18.generated_elect_sessions_eq_model
+#print axioms C18.generated_elect_sessions_covers_model
